@@ -287,6 +287,39 @@ def run_case(case):
                 continue
             if after != before:
                 bad("set_params(k=current value) changes other parameters", ccat, "key %s: %r %s" % (k, _diff(before, after)[:4], hdesc))
+        # set(k, an equal but distinct object) for every estimator-valued or estimator-list-valued key: the objects given are the ones
+        # reported (and used) afterwards, even when they compare equal to the ones they replace
+        if len(hist) <= 1:
+            for k in sorted(params):
+                v = params[k]
+                members = [v] if K.is_est(v) else ([m for m in v if K.is_est(m)] if isinstance(v, (list, tuple)) else [])
+                if not members or (isinstance(v, (list, tuple)) and len(members) != len(v)):
+                    continue
+                e3 = build(hist)
+                try:
+                    cur = e3.get_params(deep=True)[k]
+                    nv = clone(cur, safe=False) if K.is_est(cur) else type(cur)(clone(m, safe=False) for m in cur)
+                except Exception:
+                    continue
+                given = [nv] if K.is_est(cur) else list(nv)
+                transitions += 1
+                ccat = _category(k, cur)
+                try:
+                    e3.set_params(**{k: nv})
+                    rep = e3.get_params(deep=True)
+                except Exception as e:
+                    bad("set_params(k=equal copy) raises %s" % type(e).__name__, ccat, "key %s: %s %s" % (k, str(e)[:200], hdesc))
+                    continue
+                reach = set()
+                for val in rep.values():
+                    reach.add(id(val))
+                    if isinstance(val, (list, tuple)):
+                        reach.update(id(m) for m in val)
+                        reach.update(id(m[1]) for m in val if isinstance(m, tuple) and len(m) == 2)
+                missing = [type(g).__name__ for g in given if id(g) not in reach]
+                if missing:
+                    bad("set_params(k=equal but distinct object) keeps the old object", ccat,
+                        "key %s: the object(s) given (%s) are not among the values get_params reports afterwards %s" % (k, ", ".join(missing), hdesc))
         # ---------- transitions
         ops = [("clone",)] + [("set", k, c) for k, c in _curated(est, strs, 8, C["skip"], every=len(hist) < case.get("alldepth", 1))] + [("transfer", v, o) for v in sorted(C["variants"]) for o in (("reported", "sorted", "reversed") if len(hist) == 0 else ("reported",))]
         for op in ops:
